@@ -112,6 +112,22 @@ func addEscapeResources(s *Sim, r *rand.Rand) {
 	w.add(res)
 	w.add(&Res{Name: "ex.auth", Kind: 'x'})
 	s.Cfg.P.RIDs = append(s.Cfg.P.RIDs, name)
+	// resource ids with characters that are legal in a name and mean something
+	// else in a URL: the path of a resource must lead back to it
+	for _, n := range []string{"ex.a+b", "ex.c++.v1+2", "ex.p%.q"} {
+		if r.IntN(2) == 0 {
+			continue
+		}
+		st := &State{Kind: 'm', Model: map[string]Val{"n": prim(`1`), "up": ref(name)}}
+		pr := &Res{Name: n, Kind: 'm', V: map[string]*Variant{}}
+		pr.V[""] = &Variant{Name: n, Actual: st}
+		w.add(pr)
+		s.Cfg.P.RIDs = append(s.Cfg.P.RIDs, n)
+		// (and a reference to it, so that its href is rendered)
+		if m := w.Res[name]; m != nil && r.IntN(2) == 0 {
+			m.V[""].Actual.Model["plus"] = ref(n)
+		}
+	}
 }
 
 // ---- generation ----------------------------------------------------------------
@@ -712,6 +728,15 @@ func (s *Sim) oracleHTTPDone(h *HTTPCall) {
 		if m.Status != nil && !m.direct() && *m.Status == h.Status && h.Status != 200 && h.Status != 204 {
 			s.violate("C17", "b", "meta-status-out-of-range-honoured", "%s %s: the response status %d is a service meta status outside 300-599", h.Method, h.Path, h.Status)
 		}
+	}
+
+	// ---- C16.a: a valid path of a mapped method is the resource's: it is not
+	// refused out of hand (every GET, HEAD and POST that is served asks the
+	// service for access at the least)
+	if errCode == "system.notFound" && h.Status == http.StatusNotFound && gw.HeaderAuth == nil && len(mine) == 0 && alone && len(during) == 0 && (h.Method == "GET" || h.Method == "HEAD" || h.Method == "POST") {
+		s.stat("oracle.C16.a_served", 1)
+		s.violate("C16", "a", "valid-path-not-found", "%s %q is the path of resource %s, but it was answered 404 system.notFound without any request to a service", h.Method, h.Path, rid)
+		return
 	}
 
 	// ---- C17.a status table
